@@ -1068,10 +1068,148 @@ def lvalue_shape(F, write_kinds_):
     return shape, possible
 
 
+def _iterative_symbols_shape(F, fn):
+    """get_symbols written as a walk: `node` starts at this; each round of a loop looks at node->get_kind(), collects from
+    some operands and steps to one operand (`node = &node->get(i)`), the index possibly taken from a table function of the
+    kind.  One round is interpreted per kind: {K: operands collected from or stepped into}."""
+    from ..inline import strip
+    from .exprlaws import size_table
+    loops = [n for n in walk(fn["body"]) if n.get("k") in ("while", "for")]
+    if not loops:
+        return None
+    body = loops[0].get("body") or {}
+    stmts = body.get("s", []) if body.get("k") == "block" else [body]
+    tab, _ = size_table(F)
+
+    def table_value(call, K):
+        for t in F.fns(call.get("fn") or ""):
+            if t.get("body") is None or t.get("cls"):
+                continue
+            for labels, ss in switch_cases(t, selector=None) if False else _param_switch(t):
+                if K in labels or ("default" in labels and not any(K in l2 for l2, _ in _param_switch(t) if "default" not in l2)):
+                    for x in walk({"k": "block", "s": ss}):
+                        if x.get("k") == "return" and x.get("e") is not None:
+                            e = strip(x["e"])
+                            if e.get("k") == "int":
+                                return e["v"]
+                            if e.get("k") == "un" and e.get("op") == "-" and strip(e["e"]).get("k") == "int":
+                                return -strip(e["e"])["v"]
+        return None
+
+    def ev(e, K, env):
+        e = strip(e)
+        if not isinstance(e, dict):
+            return None
+        k = e.get("k")
+        if k == "int":
+            return e["v"]
+        if k == "bool":
+            return bool(e["v"])
+        if k == "ref" and e.get("dk") == "enumerator":
+            return ("enum", e["name"])
+        if k == "ref" and e.get("id") in env:
+            return env[e["id"]]
+        if k == "call" and e.get("name") == "get_kind":
+            return ("enum", K)
+        if k == "call" and e.get("ck") in ("free", "static"):
+            return table_value(e, K)
+        if k == "un" and e.get("op") == "!":
+            v = ev(e["e"], K, env)
+            return None if v is None else not v
+        if k == "un" and e.get("op") == "-":
+            v = ev(e["e"], K, env)
+            return -v if isinstance(v, int) else None
+        if k == "bin" and e.get("op") in ("==", "!=", "<", ">", "<=", ">=", "&&", "||"):
+            a, b = ev(e["lhs"], K, env), ev(e["rhs"], K, env)
+            if e["op"] == "&&":
+                return False if (a is False or b is False) else (True if a is True and b is True else None)
+            if e["op"] == "||":
+                return True if (a is True or b is True) else (False if a is False and b is False else None)
+            if a is None or b is None:
+                return None
+            return {"==": a == b, "!=": a != b, "<": a < b, ">": a > b, "<=": a <= b, ">=": a >= b}[e["op"]] \
+                if not (isinstance(a, tuple) and e["op"] not in ("==", "!=")) else None
+        if k == "cond":
+            c = ev(e["c"], K, env)
+            return ev(e["a"] if c else e["b"], K, env) if c is not None else None
+        return None
+    out, ident = {}, False
+    for K in tab:
+        env, idx, done = {}, set(), False
+
+        def run(ss):
+            nonlocal done, ident
+            for st in ss:
+                if done or not isinstance(st, dict):
+                    return
+                k = st.get("k")
+                if k == "decl":
+                    for v in st.get("vars", []):
+                        env[v.get("id")] = ev(v.get("init"), K, env) if v.get("init") is not None else None
+                elif k == "if":
+                    c = ev(st["c"], K, env)
+                    if c is None:
+                        raise AnalysisBroken("get_symbols (iterative form): condition `%s` not decided for %s" % (short(st["c"])[:50], K))
+                    br = st["then"] if c else st.get("else")
+                    if br is not None:
+                        run(br.get("s", []) if br.get("k") == "block" else [br])
+                elif k in ("return", "break"):
+                    done = True
+                else:
+                    for c in calls(st):
+                        if c.get("name") == "insert" and K == "IDENTIFIER":
+                            ident = True
+                        if c.get("name") in ("get", "operator[]") and c.get("args"):
+                            i = ev(c["args"][-1], K, env)
+                            if isinstance(i, int) and not isinstance(i, bool) and i >= 0:
+                                idx.add(i)
+                    if k == "bin" and st.get("op") == "=":      # node = &node->get(i): the walk goes on in that operand
+                        done = True
+        run(stmts)
+        out[K] = idx
+    return out, ident
+
+
+def _param_switch(t):
+    """[(labels, stmts)] of the switch over the kind parameter of a table function"""
+    sws = [n for n in walk(t["body"]) if n.get("k") == "switch"]
+    if not sws:
+        return []
+    items = []
+    for s_ in sws[0]["body"].get("s", []):
+        labels = []
+        while isinstance(s_, dict) and s_.get("k") in ("case", "default"):
+            labels.append(s_["v"].get("name") if s_["k"] == "case" and isinstance(s_.get("v"), dict) else "default")
+            s_ = s_.get("s")
+        items.append((labels, s_))
+    groups = []
+    for i, (labels, s_) in enumerate(items):
+        if not labels:
+            continue
+        ss = []
+        for l2, s2 in items[i:]:
+            if s2 is not None:
+                ss.append(s2)
+            if isinstance(s2, dict) and s2.get("k") in ("break", "return"):
+                break
+        # merge label runs: `case A: case B: return 0;`
+        groups.append((labels, ss))
+    # labels without statements of their own share the next group's statements
+    merged, pend = [], []
+    for labels, ss in groups:
+        merged.append((pend + labels, ss))
+        pend = []
+    return merged
+
+
 def get_symbols_shape(F):
     """{K: set(child indices whose symbols are collected)} and whether IDENTIFIER inserts its own symbol."""
     fn = F.fn("UTAP::expression_t::get_symbols")
     out, ident = {}, False
+    if not any(n.get("k") == "switch" for n in walk(fn["body"])):
+        alt = _iterative_symbols_shape(F, fn)
+        if alt is not None:
+            return alt[0], alt[1], fn
     for labels, stmts in switch_cases(fn):
         body = {"k": "block", "s": stmts}
         idx = set()
